@@ -305,7 +305,8 @@ static int recv_events(m_ctx_t *c, int timeout) {
                 if (p && p->flags & M_SRC_ONESHOT) {
                     if (p->type != M_SRC_TYPE_PS) {
                         m_bst_remove(mod->srcs[p->type], p);
-                    } else {
+                    } else if (m_map_get(mod->subscriptions, p->ps_src.topic) == p) {
+                        /* (a subscription that replaced it while the message was pending is another one: it stays) */
                         m_map_remove(mod->subscriptions, p->ps_src.topic);
                     }
                 }
